@@ -162,6 +162,19 @@ func c11Judge(res *engine.Result, in []byte, class int, id byte, p *ref.PES, dat
 			res.Failf(pre+"DTS-value", "stream id %#x: DTS()=%#x want %#x", id, got, p.DTS)
 		}
 	}
+	// The decoded header describes the bytes it was decoded from: its scalar values must not follow the
+	// caller's buffer when that buffer is reused for the next packet (Data() is a view and is exempt).
+	if len(in) <= len(keep) {
+		for i := range in {
+			in[i] ^= 0xA5
+		}
+		if h.StreamId() != id || h.PacketStartCodePrefix() != 1 || h.DataAligned() != p.Aligned || h.HasPTS() != wantPTS || h.HasDTS() != wantDTS ||
+			(wantPTS && h.PTS() != p.PTS) || (wantDTS && h.DTS() != p.DTS) {
+			res.Failf(pre+"values-follow-source-buffer", "stream id %#x: after the source bytes were overwritten the header reports id %#x pts %#x dts %#x (decoded: pts %#x dts %#x)",
+				id, h.StreamId(), h.PTS(), h.DTS(), p.PTS, p.DTS)
+		}
+		copy(in, keep[:n])
+	}
 }
 
 // c11NoPanic only executes the decoder (inputs on which the statement is silent).
